@@ -73,3 +73,33 @@ pub fn guarded<T>(f: impl FnOnce() -> T) -> Result<T, String> {
 }
 
 pub fn is_overflow(msg: &str) -> bool { msg.contains("overflow") }
+
+/// shared sink for harness parts that are combined into one check (cases + spec violations + stats)
+pub struct Collector {
+	pub out: Out,
+	pub viol: Vec<String>,          // JSON objects, one per violation
+	pub stats: std::collections::BTreeMap<String, u64>,
+	pub spec_cases: u64,
+	dir: std::path::PathBuf,
+}
+impl Collector {
+	pub fn new(dir: &Path) -> anyhow::Result<Collector> {
+		Ok(Collector { out: Out::create(dir, "cases.txt")?, viol: Vec::new(), stats: Default::default(), spec_cases: 0, dir: dir.to_path_buf() })
+	}
+	pub fn violation(&mut self, kind: &str, input: &str, replay: &str, detail: &str) {
+		self.viol.push(format!("{{\"kind\":{},\"input\":{},\"replay\":{},\"detail\":{}}}", jstr(kind), jstr(input), jstr(replay), jstr(detail)));
+	}
+	pub fn bump(&mut self, k: &str, n: u64) { *self.stats.entry(k.to_string()).or_insert(0) += n; }
+	pub fn finish(self) -> anyhow::Result<()> {
+		let lines = self.out.lines;
+		self.out.finish();
+		let mut v = Out::create(&self.dir, "spec_violations.jsonl")?;
+		for x in &self.viol { v.line(x); }
+		v.finish();
+		let mut s = Out::create(&self.dir, "stats.json")?;
+		s.line(&format!("{{\"lines\":{lines},\"spec_cases\":{},\"spec_violations\":{},\"groups\":{{{}}}}}", self.spec_cases, self.viol.len(),
+			self.stats.iter().map(|(k, v)| format!("{}:{}", jstr(k), v)).collect::<Vec<_>>().join(",")));
+		s.finish();
+		Ok(())
+	}
+}
